@@ -330,6 +330,7 @@ func (l *int64LeafNode) unlock() { l.mutex.Unlock() }
 type Int64Tree struct {
 	root  int64Node
 	order int
+	mutex sync.Mutex // guards root; held only until the root node is locked
 }
 
 // NewInt64Tree returns a newly initialized Int64Tree of the specified
@@ -349,6 +350,8 @@ func NewInt64Tree(order int) (*Int64Tree, error) {
 
 // Delete removes the key-value pair from the tree.
 func (t *Int64Tree) Delete(key int64) {
+	t.mutex.Lock()
+	defer t.mutex.Unlock()
 	t.root.lock()
 	defer t.root.unlock()
 
@@ -367,6 +370,7 @@ func (t *Int64Tree) Delete(key int64) {
 // Insert inserts the key-value pair into the tree, replacing the existing value
 // with the new value if the key is already in the tree.
 func (t *Int64Tree) Insert(key int64, value interface{}) {
+	t.mutex.Lock()
 	n := t.root
 	n.lock()
 
@@ -389,6 +393,7 @@ func (t *Int64Tree) Insert(key int64, value interface{}) {
 			n = right
 		}
 	}
+	t.mutex.Unlock()
 
 	for n.isInternal() {
 		parent := n.(*int64InternalNode)
@@ -466,8 +471,10 @@ func (t *Int64Tree) Insert(key int64, value interface{}) {
 func (t *Int64Tree) Search(key int64) (interface{}, bool) {
 	var value interface{}
 	var ok bool
+	t.mutex.Lock()
 	n := t.root
 	n.lock()
+	t.mutex.Unlock()
 	for n.isInternal() {
 		parent := n.(*int64InternalNode)
 		child := parent.children[int64SearchLessThanOrEqualTo(key, parent.runts)]
@@ -496,6 +503,7 @@ func (t *Int64Tree) Search(key int64) (interface{}, bool) {
 // returns, the key will exist in the tree with the new value returned by the
 // callback function.
 func (t *Int64Tree) Update(key int64, callback func(interface{}, bool) interface{}) {
+	t.mutex.Lock()
 	n := t.root
 	n.lock()
 
@@ -518,6 +526,7 @@ func (t *Int64Tree) Update(key int64, callback func(interface{}, bool) interface
 			n = right
 		}
 	}
+	t.mutex.Unlock()
 
 	for n.isInternal() {
 		parent := n.(*int64InternalNode)
@@ -602,8 +611,10 @@ func (t *Int64Tree) Update(key int64, callback func(interface{}, bool) interface
 // of the locked node. The leaf node is only unlocked either by closing the
 // Cursor, or after all key-value pairs have been visited using Scan.
 func (t *Int64Tree) NewScanner(key int64) *Int64Cursor {
+	t.mutex.Lock()
 	n := t.root
 	n.lock()
+	t.mutex.Unlock()
 	for n.isInternal() {
 		parent := n.(*int64InternalNode)
 		child := parent.children[int64SearchLessThanOrEqualTo(key, parent.runts)]
